@@ -52,7 +52,7 @@ def cases(tier, seed):
         fam.append(["G", "Q." + q])
     fam += [["SP", ["L", "P.L#int"]], ["SP", ["L", "Q.c8@cw"]], ["SP", ["PC", "hollow", "float"]]]
     # other units of length: the same drawings 1024 times smaller / larger (powers of two: exact)
-    fam += [["SCL", "Q.c8", "1/1024"], ["SCL", "Q.blob", "1/1024"], ["SCL", "Q.rsq", "1/1024"], ["SCL", "Q.c16", "1024"], ["SCL", "Q.mixg", "1024"]]
+    fam += [["SCL", "Q.c8", "1/1024"], ["SCL", "Q.blob", "1/1024"], ["SCL", "Q.rsq", "1/1024"], ["SCL", "Q.tear", "1/1024"], ["SCL", "Q.scub", "1/1024"], ["SCL", "Q.c16", "1024"], ["SCL", "Q.mixg", "1024"]]
     if tier == "thorough":
         fam += [["SCL", "Q." + q, f] for q in ("lens", "scub", "c5", "ftri") for f in ("1/1024", "1024")]
     # other positions: cubic-bounded shapes built fresh on every side of the axes (dyadic offsets: exact)
